@@ -153,6 +153,56 @@ for it in range(N):
             {"points": pts.round(4).tolist()}, lambda pts=pts, Rm=Rm, t=t: geometry_contract(pts, Rm, t))
 
 
+def internal(coord):
+    """all pair distances and the signed dihedrals of consecutive quadruples (chirality), float64 textbook"""
+    c = np.asarray(coord, dtype=float)
+    d = np.linalg.norm(c[:, None] - c[None], axis=-1)
+    dih = np.array([textbook(c[i:i + 4])[2] for i in range(len(c) - 3)])
+    return d, dih
+
+
+def library_motion_contract(name, coord, move):
+    """the rigid motions the library itself offers (transform.py) keep every internal coordinate, handedness included"""
+    arr = struc.AtomArray(len(coord))
+    arr.coord = coord.astype(np.float32)
+    d0, h0 = internal(arr.coord)
+    moved = move(arr)
+    if not isinstance(moved, struc.AtomArray) or moved.coord.shape != arr.coord.shape:
+        return f"{name}: returned {type(moved).__name__}"
+    if not np.array_equal(arr.coord, coord.astype(np.float32)):
+        return f"{name}: changed the input coordinates"
+    d1, h1 = internal(moved.coord)
+    if np.abs(d1 - d0).max() > 2e-3:
+        return f"{name}: distances change by up to {np.abs(d1 - d0).max():.4f}"
+    dd = np.abs(h1 - h0)
+    dd = np.minimum(dd, 2 * np.pi - dd)
+    if len(dd) and dd.max() > 2e-2:
+        return f"{name}: signed dihedral changes {h0[dd.argmax()]:.4f} -> {h1[dd.argmax()]:.4f} (mirror image?)"
+    # the variants on plain coordinates agree with the AtomArray variants
+    plain = move(arr.coord.copy())
+    if not np.allclose(plain, moved.coord, atol=1e-3):
+        return f"{name}: ndarray variant differs from the AtomArray variant"
+    return None
+
+
+for it in range(N // 5):
+    n = int(rng.integers(5, 12))
+    coord = np.cumsum(rng.normal(size=(n, 3)) * rng.uniform(0.5, 3, size=3), axis=0) + rng.uniform(-20, 20, size=3)
+    ang = rng.uniform(-np.pi, np.pi, size=3)
+    ax, sup, th = rng.normal(size=3), rng.uniform(-5, 5, size=3), float(rng.uniform(-np.pi, np.pi))
+    vec = rng.uniform(-30, 30, size=3)
+    order = [None, (0, 1, 2), (2, 1, 0), (1, 2, 0), (0, 2, 1), (1, 0, 2), (2, 0, 1)][it % 7]
+    o1, o2, t1, t2 = rng.normal(size=3), rng.normal(size=3), rng.uniform(-5, 5, size=3), rng.uniform(-5, 5, size=3)
+    motions = [("translate", lambda a: struc.translate(a, vec)), ("rotate", lambda a: struc.rotate(a, ang)),
+               ("rotate_centered", lambda a: struc.rotate_centered(a, ang)),
+               ("rotate_about_axis", lambda a: struc.rotate_about_axis(a, ax, th, sup)),
+               (f"orient_principal_components(order={order})", lambda a: struc.orient_principal_components(a, order)),
+               ("align_vectors", lambda a: struc.align_vectors(a, o1, o2, t1, t2))]
+    for name, move in motions:
+        R.check("the library's own rigid motions keep distances and signed dihedrals", f"transform: {name.split('(')[0]}",
+                {"n": n, "draw": it, "motion": name}, lambda name=name, coord=coord, move=move: library_motion_contract(name, coord, move))
+
+
 def periodic_geometry_contract(kind, box):
     """a 4-atom chain is translated and wrapped into the box: the periodic distance / angle / dihedral
     (and their index variants) must equal the textbook values of the unwrapped chain"""
